@@ -49,4 +49,7 @@ func init() {
 		externs: []string{"binary.AppendUvarint", "binary.Uvarint", "binary.PutUvarint:out0", "slices.Clip"},
 		devirt:  map[string]string{"UvarintReader": "uvarintReader"},
 	})
+	registerGoLite(glGroup{id: "golitec14", out: "GoLiteC14.v", pkgDir: "ipld/ipldbindcode",
+		funcs:   []glFunc{{name: "VerifyHash"}},
+		externs: []string{"checksumCrc64", "checksumFnv"}})
 }
